@@ -123,6 +123,7 @@ fn encode_case(em: &mut Emitter, mode: u8, data: &[u8], m2: u8, outer_indef: boo
         let orc = if m2 == 1 { Oracle::None } else { match (&w, &l) {
             (Some(v), Some(n)) => {
                 if *n != v.len() { Oracle::Fail("encoded-len".into()) }
+                else if let Some(what) = awkward_targets(v, 1 + v.len() % 4, &|tg| { let mut tg = tg; os.encode_ref().write_encoded(mode_of(m2), &mut tg) }) { Oracle::Fail(what.into()) }
                 else {
                     // the output must be a well-formed encoding of the same content
                     match catch(|| take_os(m2, Tag::OCTET_STRING, v)) {
@@ -151,13 +152,22 @@ fn cmp_case(em: &mut Emitter, a: &[u8], b: &[u8], ca: &[u8], cb: &[u8]) {
     em.case(1701, &[bytes_arg(a), bytes_arg(b)], || {
         let r = catch(|| {
             let (x, y) = (take_os(0, Tag::OCTET_STRING, a)?, take_os(0, Tag::OCTET_STRING, b)?);
-            Some((x == y, x.cmp(&y), hash_of(&x) == hash_of(&y) && hash_calls(&x) == hash_calls(&y), x.partial_cmp(&y)))
+            // the same pair decoded in CER mode, where both encodings are accepted there
+            let cer = match (take_os(1, Tag::OCTET_STRING, a), take_os(1, Tag::OCTET_STRING, b)) {
+                (Some(p), Some(q)) => Some((p == q, p.cmp(&q), hash_calls(&p) == hash_calls(&q), p == y, x == q)),
+                _ => None };
+            Some((x == y, x.cmp(&y), hash_of(&x) == hash_of(&y) && hash_calls(&x) == hash_calls(&y), x.partial_cmp(&y), cer))
         });
         match r {
-            Some(Some((eq, ord, heq, pord))) => {
+            Some(Some((eq, ord, heq, pord, cer))) => {
                 let e = ca.cmp(cb);
                 let orc = if eq != (ca == cb) { Oracle::Fail("eq".into()) } else if ord != e || pord != Some(e) { Oracle::Fail("cmp".into()) }
-                          else if ca == cb && !heq { Oracle::Fail("hash".into()) } else { Oracle::Pass };
+                          else if ca == cb && !heq { Oracle::Fail("hash".into()) }
+                          else if let Some((ceq, cord, cheq, m1, m2)) = cer {
+                              if ceq != (ca == cb) || m1 != (ca == cb) || m2 != (ca == cb) { Oracle::Fail("eq-of-cer-decoded-strings".into()) }
+                              else if cord != e { Oracle::Fail("cmp-of-cer-decoded-strings".into()) }
+                              else if ca == cb && !cheq { Oracle::Fail("hash-of-cer-decoded-strings".into()) } else { Oracle::Pass } }
+                          else { Oracle::Pass };
                 let o = match ord { std::cmp::Ordering::Less => -1, std::cmp::Ordering::Equal => 0, _ => 1 };
                 (Ints::new().n(R_OK).n(R_OK).b(eq).n(R_OK).n(o).n(R_OK).b(heq), orc, true)
             }
@@ -267,6 +277,15 @@ pub fn run17(em: &mut Emitter, rng: &mut Rng, thorough: bool) {
         for a in sa { for b in sb { if thorough || rng.chance(1, 6) || ca == cb { cmp_case(em, a, b, ca, cb); } } }
         for a in sa { if thorough || rng.chance(1, 3) { slice_case(em, a, ca, cb); } }
     }}
+    // the encodings CER accepts for one content: with and without an empty final segment, the two empty forms
+    {
+        let enc = |o: &Os| { let mut d = Vec::new(); os_encode(o, 0x04, &mut d); d };
+        let full = |k: usize, tail: Option<usize>, x: u8| { let mut v: Vec<Os> = (0..k).map(|_| Os::Prim(vec![x; 1000])).collect(); if let Some(n) = tail { v.push(Os::Prim(vec![x; n])); } Os::Cons(true, v) };
+        let mut forms: Vec<Os> = vec![Os::Cons(true, vec![]), Os::Cons(true, vec![Os::Prim(vec![])]), Os::Prim(vec![]), Os::Prim(vec![0x55; 3]), Os::Prim(vec![0x55; 1000])];
+        for k in 1..=2usize { for x in [0x55u8, 0x56] { forms.push(full(k, None, x)); forms.push(full(k, Some(0), x)); forms.push(full(k, Some(1), x)); } }
+        let forms: Vec<(Vec<u8>, Vec<u8>)> = forms.iter().map(|o| (enc(o), os_content(o))).collect();
+        for (a, ca) in &forms { for (b, cb) in &forms { cmp_case(em, a, b, ca, cb); } }
+    }
     for _ in 0..(if thorough { 400_000 } else { 10_000 }) {
         let a = random_os(rng, 3, &[0x61, 0x62, 0x00], 5); let b = if rng.chance(1, 3) { random_os(rng, 3, &[0x61, 0x62, 0x00], 5) } else {
             // same content, different segmentation
